@@ -272,9 +272,17 @@ func (parser *Parser) ParseArray(depth int) (Sexp, error) {
 	return &SexpArray{Val: arr, Env: parser.env}, nil
 }
 
+// MaxParseRecursion bounds the recursion of the parser (two levels of
+// it for a nested list): a text is whatever the host was handed, and
+// a Go stack that outgrows its limit takes the host process down.
+const MaxParseRecursion = 100000
+
 func (parser *Parser) ParseExpression(depth int) (res Sexp, err error) {
 	parser.recur++
 	defer func() { parser.recur-- }()
+	if parser.recur > MaxParseRecursion {
+		return SexpNull, fmt.Errorf("expression nested too deep (more than %d levels of parser recursion)", MaxParseRecursion)
+	}
 
 	// defer func() {
 	// 	if res != nil {
